@@ -91,10 +91,12 @@ func (m *Model) WriteOptions(o Opts, res *Result) []resource.WriteOption {
 		wo = append(wo, resource.WithCreatedCallback(func() { res.CreatedCBs++ }))
 	}
 	if o.Before && m.Type.Before != nil {
-		wo = append(wo, resource.InterceptBefore(resource.UpdateInterceptor(m.Type.Before)))
+		f := m.Type.Before
+		wo = append(wo, resource.InterceptBefore(func(old, v proto.Message) { res.BeforeN++; f(old, v) }))
 	}
 	if o.After && m.Type.After != nil {
-		wo = append(wo, resource.InterceptAfter(resource.UpdateInterceptor(m.Type.After)))
+		f := m.Type.After
+		wo = append(wo, resource.InterceptAfter(func(old, nw proto.Message) { res.AfterN++; f(old, nw) }))
 	}
 	if o.WriteTime != nil {
 		wo = append(wo, resource.WithWriteTime(*o.WriteTime))
